@@ -342,8 +342,15 @@ class NP:
     def zeros_like(self, x, **k):
         if isinstance(x, _np.ndarray): return self.zeros(x.shape)
         raise Unsupported("zeros_like of generic")
+    def asarray(self, x, dtype=None, **k):
+        # no copy for arrays: the result aliases the argument (in-place stores through it reach the caller's array)
+        if isinstance(x, (RowArr, GVec)) or type(x).__name__ == "VArr":
+            return x
+        return self.array(x, dtype=dtype, **k)
     def array(self, x, dtype=None, ndmin=0, **k):
-        if isinstance(x, (RowArr, GVec)):
+        if isinstance(x, RowArr):
+            return x.copy()
+        if isinstance(x, GVec):
             return x
         if type(x).__name__ == "VArr":
             return x.copy() if k.get("copy", True) else x
@@ -360,7 +367,6 @@ class NP:
             return x
         a = _np.array(x, dtype=dtype, **k)
         return a
-    asarray = array
     def atleast_2d(self, x):
         if isinstance(x, RowArr): return x
         if isinstance(x, _np.ndarray) and x.dtype == object:
@@ -681,9 +687,20 @@ class NP:
     def allclose(self, *a, **k):
         if _has_sym(a): raise Unsupported("np.allclose on symbolic data")
         return _np.allclose(*a, **k)
-    def isclose(self, *a, **k):
-        if _has_sym(a): raise Unsupported("np.isclose on symbolic data")
-        return _np.isclose(*a, **k)
+    def isclose(self, a, b, rtol=1e-05, atol=1e-08, equal_nan=False, **k):
+        if _has_sym((a, b)) or isinstance(a, (GVec, RowArr)) or isinstance(b, (GVec, RowArr)):
+            # numpy's definition over the reals: |a - b| <= atol + rtol * |b| (the tolerances identified with their doubles)
+            from fractions import Fraction
+            if k or _has_sym((rtol, atol)):
+                raise Unsupported("np.isclose form")
+            if isinstance(a, GFrame) or isinstance(b, GFrame):
+                raise Unsupported("np.isclose on tables")
+            if getattr(a, "kind", None) == "series":
+                a = a.to_numpy()
+            if getattr(b, "kind", None) == "series":
+                b = b.to_numpy()
+            return abs(a - b) <= abs(b) * Fraction(rtol) + Fraction(atol)
+        return _np.isclose(a, b, rtol=rtol, atol=atol, equal_nan=equal_nan, **k)
 
     class _Linalg:
         def norm(self, x, ord=None, axis=None, keepdims=False):
